@@ -1,5 +1,6 @@
 import RtcVerif.Model.C12
 import RtcVerif.Proofs.C12Lemmas
+import RtcVerif.Proofs.C12Io
 /-!
 # C12 — one time axis relative to t0; exports contain the results at the right times
 
@@ -389,6 +390,246 @@ theorem C12_export_netcdf_moved_reference_witness :
     (timesSec [0, 3600, 7200] 3600).map (exportStamps 3600) = some [3600, 7200] := by
   decide +kernel
 
+/-! ## what each accessor hands out (statement-level model `Model/C12Io.lean`, tied to the source by
+`Gen/IoSlices.lean`) -/
+
+/-- **`bounds()[v]` is built from the series `v_Min` / `v_Max` of member 0, from t0 on.**  With neither
+    series the parent's entry is kept; otherwise the entry is the pair `(m, M)`: a side is `None` exactly
+    when its series is absent, and a present side lives on the horizon stamps and holds at every
+    horizon stamp the stored value of that stamp (missing ↦ ∓big).  The stored series are not changed. -/
+theorem C12_bounds_entry_binds_var {β : Type} (dts : List Int) (hinc : Inc dts) (ref : Int) (ts : List Int)
+    (hts : timesSec dts ref = some ts) (get : Getter) (big : Rat) (parent : Option β) :
+    (get 0 Key.min = none → get 0 Key.max = none →
+        boundsEntry ts get big parent = Entry.inherited parent) ∧
+    ((get 0 Key.min ≠ none ∨ get 0 Key.max ≠ none) →
+        ∃ m M, boundsEntry ts get big parent = Entry.io (m, M) ∧
+          (m = none ↔ get 0 Key.min = none) ∧ (M = none ↔ get 0 Key.max = none) ∧
+          (∀ vals, get 0 Key.min = some vals → ∃ s, m = some s ∧ s.1 = horizon ts ∧
+              ∀ t ∈ horizon ts, lookupAt s.1 s.2 t = (lookupAt ts vals t).map (replNan (-big))) ∧
+          (∀ vals, get 0 Key.max = some vals → ∃ s, M = some s ∧ s.1 = horizon ts ∧
+              ∀ t ∈ horizon ts, lookupAt s.1 s.2 t = (lookupAt ts vals t).map (replNan big))) ∧
+    (∀ vals lower, boundsStoreAfter ts vals lower big = vals) := by
+  refine ⟨?_, ?_, fun _ _ => rfl⟩
+  · intro h1 h2
+    simp [boundsEntry, boundSide, h1, h2]
+  · intro hor
+    refine ⟨boundSide ts get true big, boundSide ts get false big, ?_, ?_, ?_, ?_, ?_⟩
+    · have : ((boundSide ts get true big).isSome || (boundSide ts get false big).isSome) = true := by
+        simp only [boundSide, Option.isSome_map, if_true, Bool.false_eq_true, if_false, Bool.or_eq_true]
+        rcases hor with h | h
+        · left; exact Option.isSome_iff_ne_none.2 h
+        · right; exact Option.isSome_iff_ne_none.2 h
+      simp only [boundsEntry, this, if_true]
+    · simp [boundSide]
+    · simp [boundSide]
+    · intro vals hv
+      have hb := C12_bound_series_bind_var dts hinc ref ts hts vals true big
+      refine ⟨boundSeries ts vals true big, by simp [boundSide, hv], hb.1, ?_⟩
+      intro t ht
+      rw [hb.2 t ht]
+      rfl
+    · intro vals hv
+      have hb := C12_bound_series_bind_var dts hinc ref ts hts vals false big
+      refine ⟨boundSeries ts vals false big, by simp [boundSide, hv], hb.1, ?_⟩
+      intro t ht
+      rw [hb.2 t ht]
+      rfl
+
+/-- **`history(m)[v]` is the stored series of member `m` up to and including t0** (absent series: the
+    parent's entry is kept). -/
+theorem C12_history_entry {β : Type} (dts : List Int) (hinc : Inc dts) (ref : Int) (ts : List Int)
+    (hts : timesSec dts ref = some ts) (get : Getter) (m : Nat) (parent : Option β) :
+    (get m Key.var = none → historyEntry ts get m parent = Entry.inherited parent) ∧
+    (∀ vals, get m Key.var = some vals → vals.length = ts.length →
+      ∃ h : Ser, historyEntry ts get m parent = Entry.io h ∧
+        h.1 = ts.filter (fun t => decide (t ≤ 0)) ∧ h.2 = vals.take h.1.length ∧
+        ∀ t ∈ h.1, lookupAt h.1 h.2 t = lookupAt ts vals t) := by
+  constructor
+  · intro h; simp [historyEntry, h]
+  · intro vals hv hl
+    have hh := C12_history_is_up_to_t0 dts hinc ref ts hts vals hl
+    exact ⟨history ts vals, by simp [historyEntry, hv], hh.1, hh.2.1, hh.2.2⟩
+
+/-- **`seed(m)[v]` is the whole stored series of member `m` on all import stamps** (also those before
+    t0), a missing value seeding 0. -/
+theorem C12_seed_entry_whole_axis {β : Type} (ts : List Int) (get : Getter) (m : Nat) (parent : Option β) :
+    (get m Key.var = none → seedEntry ts get m parent = Entry.inherited parent) ∧
+    (∀ vals, get m Key.var = some vals →
+      ∃ s : Ser, seedEntry ts get m parent = Entry.io s ∧ s.1 = ts ∧ s.2.length = vals.length ∧
+        ∀ t, lookupAt s.1 s.2 t = (lookupAt ts vals t).map (replNan 0)) := by
+  constructor
+  · intro h; simp [seedEntry, h]
+  · intro vals hv
+    exact ⟨(ts, vals.map (replNan 0)), by simp [seedEntry, hv], rfl, by simp,
+      fun t => lookup_map ts vals (replNan 0) t⟩
+
+/-- **`constant_inputs(m)[v]` is the whole stored series of member `m`, unchanged, on all import
+    stamps; it is rejected exactly when a value at or after t0 is missing** (values before t0 may be). -/
+theorem C12_constant_input_entry {β : Type} (dts : List Int) (hinc : Inc dts) (ref : Int) (ts : List Int)
+    (hts : timesSec dts ref = some ts) (get : Getter) (m : Nat) (parent : Option β) :
+    (get m Key.var = none → constInputEntry ts get m parent = some (Entry.inherited parent)) ∧
+    (∀ vals, get m Key.var = some vals → vals.length = ts.length →
+      ((∃ t ∈ horizon ts, lookupAt ts vals t = some XVal.nan) → constInputEntry ts get m parent = none) ∧
+      ((¬ ∃ t ∈ horizon ts, lookupAt ts vals t = some XVal.nan) →
+          constInputEntry ts get m parent = some (Entry.io (ts, vals)))) := by
+  unfold timesSec at hts
+  split at hts
+  · cases hts
+    have hi := inc_map_sub dts hinc ref
+    generalize dts.map (· - ref) = ts at hi
+    constructor
+    · intro h; simp [constInputEntry, h]
+    · intro vals hv hl
+      have hmask := maskSel_ge_eq_drop ts hi vals hl
+      have hdl : (vals.drop (bisectLeft ts 0)).length = (ts.drop (bisectLeft ts 0)).length := by
+        simp [hl]
+      have hany := any_nan_iff_lookup (ts.drop (bisectLeft ts 0)) (inc_drop ts hi _) _ hdl
+      have hiff : ((vals.drop (bisectLeft ts 0)).any (fun v => decide (v = XVal.nan))) = true ↔
+          ∃ t ∈ horizon ts, lookupAt ts vals t = some XVal.nan := by
+        rw [hany]
+        constructor
+        · rintro ⟨t, ht, h⟩
+          exact ⟨t, ht, by rw [← lookup_drop ts hi vals _ t ht]; exact h⟩
+        · rintro ⟨t, ht, h⟩
+          exact ⟨t, ht, by rw [lookup_drop ts hi vals _ t ht]; exact h⟩
+      constructor
+      · intro hex
+        simp only [constInputEntry, hv, hmask]
+        rw [if_pos (hiff.2 hex)]
+      · intro hnex
+        simp only [constInputEntry, hv, hmask]
+        rw [if_neg (fun h => hnex (hiff.1 h))]
+  · cases hts
+
+/-- **`parameters(m)`: a parameter of the data store (member `m`) overrides the parent's value; every
+    other parameter keeps the parent's value.** -/
+theorem C12_parameters_io_overrides {α : Type} (parent io : List (Nat × α)) (k : Nat) :
+    aget k (parametersMerge parent io) = (alast k io).orElse (fun _ => aget k parent) :=
+  aget_parametersMerge parent io k
+
+/-- the statement-level reading of `DataStore.set_timeseries` / `get_timeseries_sec` (what the source
+    is translated to) is the store model of `C12_get_after_set` -/
+theorem C12_datastore_code_is_model (n : Nat) (st : Store) (m v : Nat) (x : List XVal) :
+    ioSetRef n st m v x = ioSet n st m v x ∧ ioGetRef st m v = ioGet st m v :=
+  ⟨ioSetRef_eq n st m v x, ioGetRef_eq st m v⟩
+
+/-! ## simulation: what is fed before each step, which stamp a recorded row belongs to -/
+
+/-- **Every recorded output row belongs to the stamp listed for it, and the inputs set before the solve
+    that produced it are those stored for that very stamp.**  For `initialize()` followed by any
+    sequence of `update(dt)` calls (default or explicit steps): the listed stamps are the model times at
+    which the rows were read; there is one feed per row; when the stamp of row `j` is an import stamp,
+    the import row fed before solve `j` is the row of that stamp; with explicit non-negative steps the
+    stamps are the running sums of the steps from 0. -/
+theorem C12_sim_feed_record (ts : List Int) (hinc : Inc ts) (dts : List Int) (s : SimSt)
+    (hrun : simRun ts dts = some s) :
+    s.stamps = s.recorded ∧ s.fed.length = s.stamps.length ∧ s.stamps.length = dts.length + 1 ∧
+    (∀ (j : Nat) (t : Int), s.stamps[j]? = some t → t ∈ ts →
+        ∃ i, (s.fed[j]?).map Prod.fst = some i ∧ ts[i]? = some t) ∧
+    ((∀ d ∈ dts, 0 ≤ d) → s.stamps = 0 :: runStamps 0 dts) := by
+  unfold simRun at hrun
+  cases hinit : simInit ts with
+  | none => rw [hinit] at hrun; cases hrun
+  | some s0 =>
+    rw [hinit] at hrun
+    simp only [Option.map_some, Option.some.injEq] at hrun
+    subst hrun
+    have inv := simInv_foldl ts dts s0 (simInv_init ts s0 hinit)
+    have hs0 : s0.stamps = [0] ∧ s0.time = 0 := by
+      unfold simInit at hinit
+      split at hinit
+      · cases hinit; exact ⟨rfl, rfl⟩
+      · cases hinit
+    have hlen : ∀ (l : List Int) (s : SimSt),
+        (l.foldl (simUpdate ts) s).stamps.length = s.stamps.length + l.length := by
+      intro l
+      induction l with
+      | nil => intro s; rfl
+      | cons d l ih => intro s; simp only [List.foldl_cons, ih, simUpdate, List.length_append,
+          List.length_cons, List.length_nil]; omega
+    refine ⟨inv.rec_eq, inv.len, by rw [hlen, hs0.1]; simp; omega, ?_, ?_⟩
+    · intro j t hj ht
+      have hf := congrArg (fun l => l[j]?) inv.fed_eq
+      simp only [List.getElem?_map, hj, Option.map_some] at hf
+      exact ⟨bisectLeft ts t, hf, get_bisect ts hinc t ht⟩
+    · intro hpos
+      rw [foldl_stamps ts dts s0 hpos, hs0.1, hs0.2]
+      rfl
+
+/-- with the default step on an equidistant axis the recorded stamps are `0, dt, 2 dt, …` -/
+theorem C12_sim_default_steps (ts : List Int) (k : Nat) (s : SimSt)
+    (hrun : simRun ts (List.replicate k (-1)) = some s) : s.stamps = simTimes s.dtImport k := by
+  unfold simRun at hrun
+  cases hinit : simInit ts with
+  | none => rw [hinit] at hrun; cases hrun
+  | some s0 =>
+    rw [hinit] at hrun
+    simp only [Option.map_some, Option.some.injEq] at hrun
+    subst hrun
+    have hs0 : s0.stamps = [0] ∧ s0.time = 0 := by
+      unfold simInit at hinit
+      split at hinit
+      · cases hinit; exact ⟨rfl, rfl⟩
+      · cases hinit
+    have key : ∀ (k : Nat) (s : SimSt), s.stamps = simTimes s.dtImport k →
+        s.time = (k : Int) * s.dtImport →
+        (simUpdate ts s (-1)).stamps = simTimes (simUpdate ts s (-1)).dtImport (k + 1) ∧
+        (simUpdate ts s (-1)).time = ((k + 1 : Nat) : Int) * (simUpdate ts s (-1)).dtImport := by
+      intro k s h1 h2
+      have hneg : ((-1 : Int) < 0) := by decide
+      simp only [simUpdate, hneg, if_true, h1, h2]
+      constructor
+      · simp only [simTimes, List.range_succ, List.map_append, List.map_cons, List.map_nil]
+        congr 2
+        push_cast
+        ring
+      · push_cast
+        ring
+    have main : ∀ (n k : Nat) (s : SimSt), s.stamps = simTimes s.dtImport k →
+        s.time = (k : Int) * s.dtImport →
+        ((List.replicate n (-1)).foldl (simUpdate ts) s).stamps
+          = simTimes ((List.replicate n (-1)).foldl (simUpdate ts) s).dtImport (k + n) := by
+      intro n
+      induction n with
+      | zero => intro k s h1 _; simpa using h1
+      | succ n ih =>
+        intro k s h1 h2
+        simp only [List.replicate_succ, List.foldl_cons]
+        have := key k s h1 h2
+        have h := ih (k + 1) _ this.1 this.2
+        rw [h]
+        congr 1
+        omega
+    have := main k 0 s0 (by rw [hs0.1]; simp [simTimes]) (by rw [hs0.2]; simp)
+    simpa using this
+
+/-! ## binary PI export -/
+
+/-- **A binary PI export of an ensemble holds, for every (member, variable), that series' own values.**
+    With the headers of a new file listed member by member (what `pi.Timeseries.write` does, see
+    `Gen/PiBinOrder.lean`) the float32 blocks, appended member by member in document order, come in
+    exactly the header order; reading the file as the format prescribes (`j`-th header ↔ `j`-th block)
+    returns for every listed series the values stored for that member and variable. -/
+theorem C12_binary_export_decodes {α : Type} (vars : Nat → List Nat) (E : Nat) (val : SKey → α)
+    (m v : Nat) (hm : m < E) (hv : v ∈ vars m) :
+    recordOrder (headerOrder vars E) E = headerOrder vars E ∧
+    binDecode (headerOrder vars E) (binBlocks (headerOrder vars E) E val) (m, v) = some (val (m, v)) := by
+  refine ⟨recordOrder_headerOrder vars E, ?_⟩
+  unfold binBlocks
+  rw [recordOrder_headerOrder]
+  apply binDecode_map
+  simp only [headerOrder, List.mem_flatMap, List.mem_range, List.mem_map]
+  exact ⟨m, hm, v, hv, rfl⟩
+
+/-- why the header order matters (seeded change c12i): headers grouped by variable with the blocks
+    still appended member by member — series (member 1, variable 0) is read back with the values of
+    (member 0, variable 1) -/
+theorem C12_binary_export_grouped_by_variable_witness :
+    recordOrder [(0, 0), (1, 0), (0, 1), (1, 1)] 2 = [(0, 0), (0, 1), (1, 0), (1, 1)] ∧
+    binDecode [(0, 0), (1, 0), (0, 1), (1, 1)] (binBlocks [(0, 0), (1, 0), (0, 1), (1, 1)] 2 id) (1, 0)
+      = some ((0, 1) : SKey) := by
+  decide
+
 /-! ## non-vacuity -/
 
 example : Inc [100, 200, 300, 450] ∧ timesSec [100, 200, 300, 450] 200 = some [-100, 0, 100, 250] := by
@@ -399,5 +640,27 @@ example : setTs [-100, 0, 100, 250] (.ts [250, 0] [XVal.fin 7, XVal.nan]) true
 
 example : setTs [-100, 0, 100, 250] (.arr [XVal.fin 1, XVal.fin 2, XVal.fin 3]) true
     = some [XVal.nan, XVal.fin 1, XVal.fin 2, XVal.fin 3] := by decide +kernel
+
+example : (boundsEntry [-100, 0, 100, 250]
+      (fun m k => if m = 0 ∧ k = Key.max then some [XVal.fin 1, XVal.fin 2, XVal.nan, XVal.fin 4] else none)
+      (7 : Rat) (some (0 : Nat)))
+    = Entry.io (none, some ([0, 100, 250], [XVal.fin 2, XVal.fin 7, XVal.fin 4])) := by decide +kernel
+
+example : constInputEntry (β := Nat) [-100, 0, 100] (fun _ _ => some [XVal.nan, XVal.fin 1, XVal.fin 2]) 0 none
+    = some (Entry.io ([-100, 0, 100], [XVal.nan, XVal.fin 1, XVal.fin 2])) := by decide +kernel
+
+example : constInputEntry (β := Nat) [-100, 0, 100] (fun _ _ => some [XVal.fin 0, XVal.fin 1, XVal.nan]) 0 none
+    = none := by decide +kernel
+
+example : parametersMerge [(1, (5 : Int)), (2, 6)] [(2, 9), (3, 4)] = [(1, 5), (2, 9), (3, 4)] := by decide
+
+example : (simRun [-3600, 0, 3600, 7200, 10800] [-1, 7200]).map (fun s => (s.stamps, s.fed, s.recorded))
+    = some ([0, 3600, 10800], [(1, 0), (2, 0), (4, 3600)], [0, 3600, 10800]) := by decide +kernel
+
+example : ioSetRef 2 [[]] 2 0 [XVal.fin 1, XVal.nan] = some [[], [], [(0, [XVal.fin 1, XVal.nan])]] := by
+  decide +kernel
+
+example : headerOrder (fun m => if m = 0 then [2, 5] else [2, 5, 7]) 2 = [(0, 2), (0, 5), (1, 2), (1, 5), (1, 7)] := by
+  decide
 
 end RtcVerif.C12
